@@ -250,6 +250,16 @@ func c08Direct() []directProg {
 		return directProg{name: name, src: b.String(), want: w, sig: "truthiness:" + name}
 	}
 	progs = append(progs, cond("host-number-kinds", "hnum", realrun.HostNumKinds), cond("host-container-types", "hcont", realrun.HostContKinds))
+	// break / continue act on the innermost enclosing loop of THEIR program only: a stray one in
+	// a nested run that a Go function reports by panicking (what load() does) is an error of
+	// the calling run, never a signal for the caller's loop
+	for _, sig := range []string{"break", "continue"} {
+		for li, loop := range []string{"for i = 0; i < 3; i++ { rd(\"i\", i); hrun(%q); rd(\"after\", i) }", "for i in [0, 1, 2] { rd(\"i\", i); hrun(%q); rd(\"after\", i) }",
+			"i = 0\nfor { rd(\"i\", i); hrun(%q); rd(\"after\", i); i++; if i > 2 { break } }"} {
+			progs = append(progs, directProg{name: "stray-" + sig + "-of-a-nested-run-" + strconv.Itoa(li), src: fmt.Sprintf(loop, sig) + "\nrd(\"end\", 1)",
+				want: []string{"rd i=" + ank.Render(int64(0))}, wantErr: "unexpected " + sig + " statement", sig: "nested-run-signal"})
+		}
+	}
 	return progs
 }
 
